@@ -37,3 +37,80 @@ Proof. split; vm_compute; reflexivity. Qed.
 Print Assumptions C06_blocks_balanced.
 Print Assumptions C06_string_literal_roundtrip.
 Print Assumptions C06_field_names_safe.
+
+(* ---- source tie: the hand-written model behind these theorems mirrors the files below; the digests of their
+   functions regenerated from /repo on this run equal the reviewed ones (coq/Doc/DocSrcDigest.v).  Any edit of
+   such a function breaks this obligation: the differential tie and the oracle then decide (tools/check.py). *)
+From Sylt Require Doc.SrcDigest Doc.DocSrcDigest Gen.GenSrcDigest.
+Theorem C06_model_sources_reviewed :
+  Sylt.Doc.SrcDigest.sources_reviewed ["sylt-compiler/src/intermediate.rs"%string; "sylt-compiler/src/lua.rs"%string]
+    Sylt.Doc.DocSrcDigest.doc_src_digests Sylt.Gen.GenSrcDigest.src_digests = true.
+Proof. vm_compute. reflexivity. Qed.
+Print Assumptions C06_model_sources_reviewed.
+
+(* ---- control flow: `break` inside a loop, `goto` with a visible label, no visible duplicate label ---- *)
+From Sylt Require Import Back.CFlow.
+From Sylt Require Back.CFlowProofs Back.CFlowEmit.
+
+(* For every resolved program (any fuel) whose `break`/`continue` statements all stand in the body of a loop
+   of their own function (CFlow.loops_ok: what the type checker enforces, C05_break_outside_loop_rejected)
+   the flat IR produced by the lowering passes the control-flow check of Back/CFlow.v: every IBreak is
+   inside a loop of the same function, every `IGoto l` is inside a loop of the same function whose label
+   (the ILabel directly following its ILoop) is l, every ILabel directly follows an ILoop and differs from
+   the labels of the enclosing loops of its function, and all constructs are closed at the end. *)
+Theorem C06_control_flow_ok : forall (fuel : nat) (r : resolved) (code : list ir),
+  loops_ok r = true -> lower fuel r = Ok code -> ir_cf_ok code = true.
+Proof. exact CFlowProofs.lower_cf_ok. Qed.
+
+(* the hypothesis is needed and the checker is not vacuous: `start :: fn { break }`, and a `continue` whose
+   only enclosing loop belongs to an outer function, fail loops_ok, lower successfully, and fail the check *)
+Theorem C06_break_outside_loop_refuted :
+  exists code, loops_ok CFlowProofs.prog_break_outside = false /\
+               lower 10 CFlowProofs.prog_break_outside = Ok code /\ ir_cf_ok code = false.
+Proof. exact CFlowProofs.break_outside_loop_refuted. Qed.
+Theorem C06_continue_across_function_refuted :
+  exists code, loops_ok CFlowProofs.prog_continue_across_fn = false /\
+               lower 10 CFlowProofs.prog_continue_across_fn = Ok code /\ ir_cf_ok code = false.
+Proof. exact CFlowProofs.continue_across_function_refuted. Qed.
+
+(* on the emitted line list (Emit.gen_lines, one line per instruction): every `goto Lk` line is preceded by
+   a `while true do` line directly followed by a `::Lk::` line, and the lines in between (those of p2) close
+   nothing they did not open and end outside any function they opened -- the goto is in that loop's body *)
+Theorem C06_goto_label_in_text : forall ops, ir_cf_ok ops = true ->
+  forall pre k post, ops = pre ++ IGoto k :: post ->
+  exists p1 p2, pre = p1 ++ ILoop :: ILabel k :: p2 /\ open_segment p2 = true /\
+  forall u l d, exists L1 L3 i1 i2 i3 l2 d2,
+    gen_lines u l d ops =
+      L1 ++ (indent i1 ++ CFlowEmit.line_while)%string :: (indent i2 ++ CFlowEmit.line_label k)%string ::
+      gen_lines u l2 d2 p2 ++ (indent i3 ++ CFlowEmit.line_goto k)%string :: L3 /\
+    length L1 = length p1.
+Proof. exact CFlowEmit.emitted_goto_has_label. Qed.
+Theorem C06_break_loop_in_text : forall ops, ir_cf_ok ops = true ->
+  forall pre post, ops = pre ++ IBreak :: post ->
+  exists p1 p2, pre = p1 ++ ILoop :: p2 /\ open_segment p2 = true /\
+  forall u l d, exists L1 L3 i1 i3 l2 d2,
+    gen_lines u l d ops =
+      L1 ++ (indent i1 ++ CFlowEmit.line_while)%string :: gen_lines u l2 d2 p2 ++
+      (indent i3 ++ CFlowEmit.line_break)%string :: L3 /\
+    length L1 = length p1.
+Proof. exact CFlowEmit.emitted_break_has_loop. Qed.
+
+Example C06_example_loops :
+  loops_ok CFlowProofs.prog_loops = true /\
+  exists code, lower 10 CFlowProofs.prog_loops = Ok code /\ ir_cf_ok code = true.
+Proof. exact CFlowProofs.loops_example. Qed.
+(* the seeded mutation (a loop's label dropped, its `goto` kept) is rejected by the checker *)
+Example C06_example_missing_label :
+  ir_cf_ok [IFunction 0 []; ILoop; ILabel 5; IBool 1 true; IIf 1; IGoto 5; IEnd; IEnd; IEnd]%N = true /\
+  ir_cf_ok [IFunction 0 []; ILoop; IBool 1 true; IIf 1; IGoto 5; IEnd; IEnd; IEnd]%N = false.
+Proof. split; vm_compute; reflexivity. Qed.
+Example C06_example_lines :
+  CFlowEmit.line_while = "while true do"%string /\ CFlowEmit.line_label 7 = "::L7::"%string /\
+  CFlowEmit.line_goto 7 = "goto L7"%string /\ CFlowEmit.line_break = "break"%string.
+Proof. repeat split; vm_compute; reflexivity. Qed.
+
+Print Assumptions C06_control_flow_ok.
+Print Assumptions C06_break_outside_loop_refuted.
+Print Assumptions C06_continue_across_function_refuted.
+Print Assumptions C06_goto_label_in_text.
+Print Assumptions C06_break_loop_in_text.
